@@ -377,6 +377,49 @@ fn run_qnt(input: &Value) -> (Case, bool) {
     )
 }
 
+// ------------------------------------------------------------------ ACC
+
+/// `pixels` copies of one colour through OcTree::insert (what from_image does for a one-colour image that is
+/// not sub-sampled), then build_palette.  Replays the input computed by props.d/C13.py from the declared
+/// accumulator widths; sizes above 200 M are not run.
+fn run_acc(input: &Value) -> (Case, bool) {
+    let n = input["pixels"].as_u64().unwrap_or(0);
+    let c = vrgb(&input["colour"]);
+    let r = if n > 200_000_000 {
+        None
+    } else {
+        with_timeout(600, move || {
+            catch(move || {
+                let mut tree = OcTree::new();
+                let col = rgba_of(&c);
+                for _ in 0..n {
+                    tree.insert(col);
+                }
+                tree.build_palette().iter().map(|c| c.to_rgb()).collect::<Vec<Rgb>>()
+            })
+        })
+    };
+    let hang = r.is_none();
+    let (ic, ij) = match &r {
+        None => ("IHang".to_string(), json!("not run / hang")),
+        Some(None) => ("IPanic".to_string(), json!("panic")),
+        Some(Some(p)) if p.len() == 1 => (format!("(IOk {})", crgb(&p[0])), json!([p[0][0], p[0][1], p[0][2]])),
+        Some(Some(p)) if p.is_empty() => ("INone".to_string(), json!("empty palette")),
+        Some(Some(p)) => (format!("(IOk {})", crgb(&p[1])), json!("several colours")),
+    };
+    let mut j = input.clone();
+    j["impl"] = ij;
+    (
+        Case {
+            coq: format!("ACC {} {} {}", n, crgb(&c), ic),
+            json: j,
+            tags: vec!["kind=acc".to_string()],
+            nontrivial: n >= 2,
+        },
+        hang && n <= 200_000_000,
+    )
+}
+
 // ------------------------------------------------------------------ RND
 
 fn run_rnd(input: &Value) -> Case {
@@ -770,6 +813,7 @@ pub fn batch(inputs: &[Value]) -> Batch {
         let (case, hang) = match input["kind"].as_str().unwrap_or("") {
             "kd" => (run_kd(input), false),
             "rnd" => (run_rnd(input), false),
+            "acc" | "accumulator-overflow" => run_acc(input),
             "oct" => run_oct(input),
             _ => run_qnt(input),
         };
